@@ -9,17 +9,8 @@ import Mathlib.Algebra.Order.Ring.Int
 
 namespace Ymq.Wied
 
-/-- sum of `f` over the entries of a row selected by `sel` -/
-def sumSel (sel : Int → Bool) (f : Nat × Int → Int) : Row → Int
-  | [] => 0
-  | je :: r => (if sel je.2 then f je else 0) + sumSel sel f r
-
 /-- `Σ_j M_ij v_j` over ℤ for one row -/
 def rowDot (col : Nat → Nat) (r : Row) : Int := sumSel (fun _ => true) (fun je => je.2 * (col je.1 : Int)) r
-
-/-- positive / negative weight of a row: `pos`, `neg` of `SparseMat::norm` -/
-def posW (r : Row) : Int := sumSel (fun _ => true) (fun je => if 0 < je.2 then je.2 else 0) r
-def negW (r : Row) : Int := sumSel (fun _ => true) (fun je => if je.2 < 0 then -je.2 else 0) r
 
 theorem I63_eq : I63 = 2 ^ 63 := by norm_num [I63]
 
@@ -286,5 +277,37 @@ theorem rowLane_spec (col : Nat → Nat) (Bd : Int) (hB0 : 0 ≤ Bd) (hcol : ∀
   unfold remEuclid
   simp only [hq]
   rw [if_neg (by exact_mod_cast hp0'), if_neg (fun h => hq1 h.2)]
+
+
+theorem foldl_max_ge (f : Row → Nat) : ∀ (m : Mat) (acc : Nat),
+    acc ≤ m.foldl (fun a r => max a (f r)) acc ∧
+      ∀ r ∈ m, f r ≤ m.foldl (fun a r => max a (f r)) acc
+  | [], acc => ⟨le_refl _, fun r hr => by simp at hr⟩
+  | r0 :: m, acc => by
+    obtain ⟨h1, h2⟩ := foldl_max_ge f m (max acc (f r0))
+    simp only [List.foldl_cons]
+    refine ⟨le_trans (le_max_left _ _) h1, fun r hr => ?_⟩
+    rcases List.mem_cons.mp hr with rfl | hr
+    · exact le_trans (le_max_right _ _) h1
+    · exact h2 r hr
+
+/-- every row weight is bounded by `norm()` -/
+theorem weight_le_norm (m : Mat) (r : Row) (hr : r ∈ m) :
+    posW r ≤ (norm m : Int) ∧ negW r ≤ (norm m : Int) := by
+  have h := (foldl_max_ge (fun r => (max (posW r) (negW r)).toNat) m 0).2 r hr
+  have h' : ((max (posW r) (negW r)).toNat : Int) ≤ (norm m : Int) := by
+    unfold norm; exact_mod_cast h
+  have h1 := Int.self_le_toNat (max (posW r) (negW r))
+  constructor
+  · exact le_trans (le_trans (le_max_left _ _) h1) h'
+  · exact le_trans (le_trans (le_max_right _ _) h1) h'
+
+/-- the code's assumption `norm · Bd < 2^63` gives the row-wise hypothesis of `rowLane_spec` -/
+theorem weights_of_norm (m : Mat) (Bd : Int) (hB0 : 0 ≤ Bd) (h : (norm m : Int) * Bd < I63) :
+    ∀ r ∈ m, posW r * Bd < I63 ∧ negW r * Bd < I63 := by
+  intro r hr
+  obtain ⟨h1, h2⟩ := weight_le_norm m r hr
+  exact ⟨lt_of_le_of_lt (mul_le_mul_of_nonneg_right h1 hB0) h,
+    lt_of_le_of_lt (mul_le_mul_of_nonneg_right h2 hB0) h⟩
 
 end Ymq.Wied
